@@ -160,4 +160,40 @@ def Decl.erase : Decl → Decl
 
 def SchemaS.erase (s : SchemaS) : SchemaS := { s with decls := s.decls.erase }
 
+/-! ### the order in which exppp emits the declarations of one scope
+
+`SCHEMAout` / `ALGscope_out`: types, entities, then `SCOPEalgs_out` = rules, functions, procedures; within each kind alphabetically
+(`SCOPEadd_inorder`, `strcmp` on the names).  The token model takes the order as an input; this is the rule it is checked against
+(driver request `schema`: `order-ok`). -/
+
+def Decl.rank : Decl → Nat
+  | .typeD _ => 0
+  | .entityD _ => 1
+  | .rule .. => 2
+  | .alg _ _ (some _) .. => 3
+  | .alg _ _ none .. => 4
+  | _ => 5
+
+def Decl.declName : Decl → String
+  | .typeD d => d.name
+  | .entityD e => e.name
+  | .rule name .. => name
+  | .alg name .. => name
+  | _ => ""
+
+/-- `a` is emitted before `b` -/
+def Decl.before (a b : Decl) : Bool := a.rank < b.rank || (a.rank == b.rank && a.declName < b.declName)
+
+mutual
+def orderedSpine : Decl → Bool
+  | .cons d (.cons d' t) => d.before d' && orderedInner d && orderedSpine (.cons d' t)
+  | .cons d .nil => orderedInner d
+  | .nil => true
+  | _ => false
+def orderedInner : Decl → Bool
+  | .alg _ _ _ nested _ _ _ => orderedSpine nested
+  | .rule _ _ nested _ _ _ _ => orderedSpine nested
+  | _ => true
+end
+
 end StepModel.Express
